@@ -73,17 +73,26 @@ type llgoMapIter struct {
 	// Advancing is delayed until the next call so mutation after yield can stop
 	// iteration before mapiternext touches cleared map state.
 	ready bool
+	// seed is the map's hash seed when the iteration started. mapclear (and a
+	// delete that empties the map) picks a new seed, so a changed seed means
+	// every entry this loop still owed has been removed.
+	seed uint32
 }
 
 func NewMapIter(t *maptype, h *hmap) *llgoMapIter {
 	var it llgoMapIter
 	mapiterinit(t, h, &it.hiter)
 	it.ready = true
+	if h != nil {
+		it.seed = h.hash0
+	}
 	return &it
 }
 
 func MapIterNext(it *llgoMapIter) (ok bool, k unsafe.Pointer, v unsafe.Pointer) {
-	if it.h == nil || it.h.count == 0 {
+	// After a clear the bucket array is recycled: an iterator positioned inside it
+	// would walk re-used overflow buckets and could yield a new entry twice.
+	if it.h == nil || it.h.count == 0 || it.h.hash0 != it.seed {
 		it.key = nil
 		it.elem = nil
 		return
